@@ -86,6 +86,7 @@ package metadata
 
 // document metadata: every item is present exactly under its condition and equal to the state's field
 //@ func (t *Metadata) CreateDocumentMetadata(rm, info) (ret, err)
+//@   modifies elems(rm.PublishedOperations), elems(rm.UnpublishedOperations)
 //@   requires t != nil
 //@   requires rm != nil ==> (forall i int :: 0 <= i && i < len(rm.PublishedOperations) ==> rm.PublishedOperations[i] != nil) &&
 //@        (forall i int :: 0 <= i && i < len(rm.UnpublishedOperations) ==> rm.UnpublishedOperations[i] != nil && allocated(rm.UnpublishedOperations[i]))
@@ -113,3 +114,10 @@ package metadata
 //@   ensures [publishedOperations] ok ==> has(mm, "publishedOperations") == (t.includePublishedOperations && len(rm.PublishedOperations) > 0)
 //@   ensures [unpublishedOperations] ok ==> has(mm, "unpublishedOperations") == (t.includeUnpublishedOperations && len(rm.UnpublishedOperations) > 0)
 //@   ensures [only] ok ==> (forall k string :: has(ret, k) ==> k == "method" || k == "deactivated" || k == "canonicalId" || k == "equivalentId" || k == "created" || k == "versionId" || k == "updated")
+
+// the constructor applies caller-supplied option closures (function values stored in a slice are not
+// followed by the verifier); the options of this package only set the two boolean fields
+//@ func New(opts) (md)
+//@   trusted "constructor applying option closures; sets only the include* flags"
+//@   modifies nothing
+//@   ensures md != nil && fresh(md)
